@@ -136,7 +136,7 @@ theorem reset_reply (c : Cfg) (s : S) (r : Reason) (h : s.respStarted = false) :
     (onUpstreamResetFinish c s r).respCode = reasonToCode r ∧ (onUpstreamResetFinish c s r).statusVar = some (reasonToCode r) ∧
     (onUpstreamResetFinish c s r).flags = s.flags ||| reasonToFlag r ∧ (onUpstreamResetFinish c s r).direct = true := by
   unfold onUpstreamResetFinish
-  simp [h, sendHijack, orFlag]
+  simp [resetNotReply_eq, h, sendHijack, orFlag]
 
 /-- route outcomes without an upstream: no route ⇒ 404 + NoRouteFound, no healthy host ⇒ 502 + NoHealthyUpstream -/
 theorem route_reply (c : Cfg) (s : S) :
